@@ -12,14 +12,19 @@ RULE = ("all generator classes (ImpartialCulture, ImpartialAnonymousCulture, Bal
 TRUSTED = ["apportionment.compute('huntington', ...) is the Huntington-Hill apportionment (external package; every recorded call is "
            "checked to return non-negative integers summing to N)",
            "numpy/random primitives return values in their documented ranges"]
-ORACLE_ONLY = ["generators without a Gallina model (ImpartialCulture/ImpartialAnonymousCulture (Dirichlet table), the two MCMC samplers, "
-               "CambridgeSampler (pickled historical table)): decided by the well-formedness oracle only",
-               "bloc sizes equal the Huntington-Hill apportionment: compared with an independent call of the same external package"]
+ORACLE_ONLY = ["bloc sizes equal the Huntington-Hill apportionment: compared with an independent call of the same external package "
+               "(the model takes the recorded sizes; C14_sizes.v proves the size accounting under the package's run-checked contract)",
+               "ImpartialCulture / ImpartialAnonymousCulture: the Dirichlet draw itself is a trusted primitive (its recorded result is the table)",
+               "CambridgeSampler with the packaged Cambridge data: the 8559-type table is handed to the model compressed (drawn types kept, the others merged per first label)"]
 
 
 def model_post(exp, mo):
     if exp.get("round") and isinstance(mo, list) and mo and isinstance(mo[-1], list):
-        return mo[:-1] + [genlib.round_calls(mo[-1])]
+        calls = genlib.round_calls(mo[-1])
+        ex = exp.get("expect")
+        if isinstance(ex, list) and ex and isinstance(ex[-1], list):
+            calls = genlib.snap_calls(calls, ex[-1])
+        return mo[:-1] + [calls]
     return mo
 
 
